@@ -2,12 +2,14 @@
 (A) Transfer.tla: the stream framing (length prefix, header{db{size,crc}, wals[{size,crc}]}, db, WALs) in
     cells (first / interior / last byte of every file), one optional mutation (flip, drop, insert, truncate at
     every cell, trailing data, 13 kinds of header edit incl. dropped / added / swapped WAL entries and a missing
-    database entry), optional transport wrapper, and both acceptors transcribed from the code: the sink phase
+    database entry, checksum cleared), COMPOUND mutations (one file's header entry edited AND that file's payload
+    altered: checksum cleared / its tag bit flipped x payload byte altered; size -1/+1 x payload one byte shorter /
+    longer), optional transport wrapper, and both acceptors transcribed from the code: the sink phase
     machine (Sink.Write header buffering + FullSink.Write/advance/Close, driven like raft's installSnapshot)
     under EVERY split of the stream into writes, and snapshot.Restore.  TLC exhaustive for 0..2 WALs:
     Accepted => installed = source, Mutated => not accepted, unmutated => installed, outcome independent of the
     split - for both acceptors; one negative control per mechanism (CheckSizes, CRCOnInstall, CRCOnRestore,
-    RejectTrailing, ValidateFiles, CompressionTransparent).
+    RejectTrailing, ValidateFiles, CompressionTransparent, ZeroCRCCompared).
 (B) every generated case is concretised on source snapshots built in a REAL snapshot store from real SQLite
     databases (full only, full + 1 / 2 incrementals opened through the chain, an installed full+WALs
     directory; 512- and 4096-byte pages), opened with the real streamer, mutated at the byte offsets of the
@@ -26,7 +28,7 @@ TECHNIQUE = "TLA+ spec of the snapshot stream framing, sink phase machine and Re
 
 SWITCHES = (("CheckSizes", "SinkMutatedRejected"), ("CRCOnInstall", "SinkAcceptedIsSource"), ("CRCOnRestore", "RestoreAcceptedIsSource"),
             ("RejectTrailing", "RestoreAcceptedIsSource"), ("ValidateFiles", "SinkAcceptedIsSource"),
-            ("CompressionTransparent", "SinkUnmutatedInstalls"))
+            ("CompressionTransparent", "SinkUnmutatedInstalls"), ("ZeroCRCCompared", "SinkAcceptedIsSource"))
 KEEP = ("nw", "mut", "comp", "layer", "acceptor", "changed", "outcome", "same")
 
 
@@ -51,7 +53,7 @@ def line_key(r):
 
 def run(ctx):
     cases, _ = vlib.tlc_cases(ctx, "Transfer", "Transfer_gen.cfg")
-    if len(cases) < 250:
+    if len(cases) < 330:
         raise vlib.Undecided("generator produced only %d cases" % len(cases))
     inp = os.path.join(ctx.scratch, "transfer.cases.ndjson")
     tr = os.path.join(ctx.scratch, "transfer.trace.ndjson")
